@@ -113,11 +113,14 @@ Definition vs_swap (data : list A) (i j : Z) : gres (list A) :=
   upd d1 (l - j - 1) a.
 
 (** * Executor: splice *)
+(** [start + count] is an int64 addition: it wraps *)
+Definition i64 (z : Z) : Z := (z + 9223372036854775808) mod 18446744073709551616 - 9223372036854775808.
+
 Definition ex_substr (arr : list A) (start count : Z) : gres (list A) :=
   let length := len arr in
   if ex_substr_start_bad start length then GErr EOverMaxArray else
   if ex_substr_count_bad count length then GErr EOverMaxArray else
-  let fin := start + count in
+  let fin := i64 (start + count) in
   if ex_substr_end_bad fin length then GErr EOverMaxArray else
   slice arr start fin.
 
